@@ -10,7 +10,8 @@ import time
 import numpy as np
 import z3
 
-from symx import core, npx
+from fractions import Fraction
+from symx import core, npx, fp
 from symx.core import Sym, SymC, lift, RV
 from symx.report import Check, q, cex, note
 from props.volt_common import Q, DS, volt_patches, sym_stream, cparts
@@ -205,6 +206,71 @@ def job_stats(n, k):
     if r == 'sat':
         recs.append(cex('C09:stats', 'estimate_stats is not mean/std of the first min(k, n) samples', dict(fn='stats', n=n, k=k), name=f"C09:stats:{(n, k)}"))
     return recs
+
+
+PEDESTAL = 2 ** 20        # |mean| <= PEDESTAL * deviation: the inputs the rounded-arithmetic claim is made for
+STATS_TOL = Fraction(1, 2 ** 30)
+
+
+def job_stats_rounded(n, k):
+    """the real estimate_stats in the rounded-real model of binary64 (every + - * / carries its own relative error
+    |d| <= 2^-53): for samples riding on a pedestal of up to 2^20 deviations, the variance under the returned deviation
+    is within 2^-30 (relative) of the exact variance of the leading samples, the mean within 2^-50.
+    (Exact-real equality cannot see an algebraically equal but numerically unstable estimator; this can.)"""
+    recs = []
+    tag = f"C09:stats-rounded:{(n, k)}"
+    fp.reset()
+    x = npx.sarr([fp.FSym(z3.Real(f'x{i}')) for i in range(n)])
+    with volt_patches():
+        leaf = core.run_single(lambda: DS.estimate_stats(x, k), [])
+    mu, sd = leaf.value
+    xs = [z3.Real(f'x{i}') for i in range(n)]
+    smu, svar = stats_spec(xs, k)
+    var_c = getattr(sd, 'radicand', None)
+    if var_c is None:
+        var_c = lift(sd) * lift(sd)
+    pre = [svar > 0, smu * smu <= PEDESTAL * PEDESTAL * svar]
+    tol = RV(STATS_TOL)
+    pl = dict(fn='stats_rounded', n=n, k=k)
+    t0 = time.time()
+    r, m = core.check(pre + leaf.side + list(fp.SIDE) + [z3.Or(var_c - svar > tol * svar, svar - var_c > tol * svar, lift(sd) < 0)], timeout_ms=300000)
+    recs.append(q(tag + ':deviation', r, ms=(time.time() - t0) * 1000, deltas=len(fp.SIDE)))
+    if r == 'sat':
+        recs.append(cex('C09:stats-rounded', 'in binary64 the returned deviation can be off by more than 2^-30 (relative, in variance) for samples on a pedestal of <= 2^20 deviations', pl, name=tag + ':deviation'))
+    tolm = RV(Fraction(1, 2 ** 50))
+    r, m = core.check(pre + leaf.side + list(fp.SIDE) + [z3.Or(lift(mu) - smu > tolm * z3.If(smu >= 0, smu, -smu), smu - lift(mu) > tolm * z3.If(smu >= 0, smu, -smu))], timeout_ms=300000)
+    recs.append(q(tag + ':mean', r))
+    if r == 'sat':
+        recs.append(cex('C09:stats-rounded', 'in binary64 the returned mean can be off by more than 2^-50 (relative)', pl, name=tag + ':mean'))
+    # twin: without the pedestal bound the claim is not expected to hold (the bound is what makes it true)
+    r, _ = core.check([svar > 0] + leaf.side + list(fp.SIDE) + [var_c - svar > tol * svar], timeout_ms=60000)
+    recs.append(q(tag + ':twin-unbounded-pedestal', r, expect='sat'))
+    return recs
+
+
+def replay_stats_rounded(p):
+    from setigen.voltage import data_stream as ds
+    rng = np.random.default_rng(11)
+    msgs = []
+    k = min(p['k'], p['n'])
+    for off, amp in ((1e5, 1.0), (-3e5, 1.0), (1e3, 1e-2), (0.0, 1.0), (7e4, 0.5)):
+        for trial in range(3):
+            x = off + amp * rng.standard_normal(max(p['n'], 64))
+            x = x[:max(p['n'], 2)] if trial == 0 else x
+            kk = k if trial == 0 else min(p['k'] if p['k'] > p['n'] else 40, len(x))
+            mu, sd = ds.estimate_stats(x, kk)
+            fx = [Fraction(float(v)) for v in x[:kk]]
+            em = sum(fx) / len(fx)
+            ev = sum((v - em) ** 2 for v in fx) / len(fx)
+            if ev == 0 or em * em > PEDESTAL ** 2 * ev:
+                continue
+            gv = Fraction(float(sd)) ** 2
+            # sqrt and its squaring add a few ulp: far below the 2^-30 tolerance
+            if abs(gv - ev) > STATS_TOL * ev or sd < 0:
+                msgs.append(f"pedestal {off:g}, spread {amp:g}, {kk} samples: deviation {float(sd)!r}, exact {float(ev) ** 0.5!r} (relative error in variance {float(abs(gv - ev) / ev):.3g})")
+            if abs(Fraction(float(mu)) - em) > Fraction(1, 2 ** 45) * abs(em):
+                msgs.append(f"pedestal {off:g}: mean {float(mu)!r}, exact {float(em)!r}")
+    return bool(msgs), '; '.join(msgs[:3]) or 'estimate_stats is accurate on pedestal inputs'
 
 
 class Counter:
@@ -821,7 +887,7 @@ def replay_stats(p):
     return (not ok), f'estimate_stats -> {mu}, {sd}; expected {np.mean(x[:k])}, {np.std(x[:k])}'
 
 
-REPLAYS = {'real_seq': replay_real_seq, 'reset': replay_reset, 'stats': replay_stats, 'real': replay_real, 'refresh': replay_refresh, 'refresh_seq': replay_refresh_seq, 'object': replay_object, 'zero': replay_zero}
+REPLAYS = {'stats_rounded': replay_stats_rounded, 'real_seq': replay_real_seq, 'reset': replay_reset, 'stats': replay_stats, 'real': replay_real, 'refresh': replay_refresh, 'refresh_seq': replay_refresh_seq, 'object': replay_object, 'zero': replay_zero}
 
 
 def main():
@@ -859,6 +925,8 @@ def main():
             jobs.append(('job_reset_cache', ('complex', before, 3, pc)))
     for n_, k_ in ((1, 1), (3, 2), (3, 7), (4, 4), (4, 1)):
         jobs.append(('job_stats', (n_, k_)))
+    jobs.append(('job_stats_rounded', (2, 2)))
+    jobs.append(('job_stats_rounded', (3, 2)))
     jobs.append(('job_refresh_step', ('pos',)))
     jobs.append(('job_refresh_step', ('nonpos',)))
     jobs.append(('job_refresh_unrolled', (8 if ck.thorough else 6,)))
